@@ -27,13 +27,13 @@ func TestC14(t *testing.T) {
 		serverCert, serverKey, _ := vp.GenCert()
 		hostCert, hostKey, _ := vp.GenCert()
 		otherCert, _, _ := vp.GenCert()
-		mkCfg := func() *plugin.ClientConfig {
+		mkCfgTLS := func(clientTLS string) *plugin.ClientConfig {
 			cfg := baseClientConfig()
 			cfg.AllowedProtocols = protoList(p.Allowed)
 			cfg.GRPCBrokerMultiplex = p.Mux
 			cfg.StartTimeout = 8 * time.Second
 			hostSetFor(cfg, p.Proto)
-			switch p.ClientTLS {
+			switch clientTLS {
 			case "static":
 				// usable in both roles: brokered connections make each side a TLS server too
 				cfg.TLSConfig = &tls.Config{RootCAs: vp.PoolOf(serverCert), Certificates: []tls.Certificate{vp.KeyPair(hostCert, hostKey)}, ServerName: "localhost", MinVersion: tls.VersionTLS12}
@@ -41,9 +41,15 @@ func TestC14(t *testing.T) {
 				cfg.TLSConfig = &tls.Config{RootCAs: vp.PoolOf(otherCert), Certificates: []tls.Certificate{vp.KeyPair(hostCert, hostKey)}, ServerName: "localhost", MinVersion: tls.VersionTLS12}
 			case "auto":
 				cfg.AutoMTLS = true
+			case "auto+static":
+				// both ways of asking for TLS at once: AutoMTLS wins for launches; a reattach cannot do
+				// AutoMTLS, but the host did configure TLS and must not end up talking plain text
+				cfg.AutoMTLS = true
+				cfg.TLSConfig = &tls.Config{RootCAs: vp.PoolOf(serverCert), Certificates: []tls.Certificate{vp.KeyPair(hostCert, hostKey)}, ServerName: "localhost", MinVersion: tls.VersionTLS12}
 			}
 			return cfg
 		}
+		mkCfg := func() *plugin.ClientConfig { return mkCfgTLS(p.ClientTLS) }
 		pcfg := pluginCfgFor(p.Proto)
 		if p.ServerTLS == "static" {
 			os.WriteFile(filepath.Join(d, "cert.pem"), serverCert, 0o600)
@@ -68,6 +74,11 @@ func TestC14(t *testing.T) {
 			pcfg = map[string]any{"mode": "raw", "lineHex": hex.EncodeToString([]byte(p.RawLine + "\n")), "after": "hang", "ctl": ""}
 		}
 		cfg := mkCfg()
+		if p.Launch == "reattach" && p.ClientTLS == "auto+static" {
+			// the plugin to reattach to is started by a client that matches the plugin's own TLS mode, so
+			// that it really is a plain-text / static-TLS plugin when the cell's client reattaches
+			cfg = mkCfgTLS(p.ServerTLS)
+		}
 		if p.Conflict != "" {
 			l := prepare(c.ID, "", pcfg, cfg, "cmd")
 			switch p.Conflict {
